@@ -56,6 +56,9 @@ PROBE_TIMES = [0.3, 1.0, 2.2]
 REG1 = dict(dose=2.0, start=0.5, duration=0.5, period=1.0, num=2)
 REG1_EVENTS = [(0.5, 0.5, 4.0, 1.0, 2)]
 REG2_EVENTS = [(0.2, 0.3, 3.0, 0, 0), (1.4, 0.2, 1.5, 0, 0)]
+# a regimen of amount zero (a placebo arm): a regimen like any other
+REG0 = dict(dose=0.0, start=0.4, duration=0.5)
+REG0_EVENTS = [(0.4, 0.5, 0.0, 0, 0)]
 
 
 def fresh(kind):
@@ -79,7 +82,10 @@ def protocol(events):
 
 
 def reg_events(m):
-    r = m.dosing_regimen()
+    try:
+        r = m.dosing_regimen()
+    except (AttributeError, NotImplementedError):
+        return None           # (a model that cannot be dosed)
     if r is None:
         return None
     return sorted((e.start(), e.duration(), e.level(), e.period(), e.multiplier())
@@ -162,7 +168,8 @@ def apply_op(kind, m, mach, op, others, viol, hist_label):
     """Applies one operation to the real model and to the reference machine.
     Returns the model to continue with."""
     K = KINDS[kind]
-    before = obs_key(observe(m)) if op in ('reg1', 'reg2') and mach.adm is None \
+    before = obs_key(observe(m)) if op in ('reg1', 'reg2', 'reg0') and \
+        mach.adm is None \
         else None
     try:
         if op.startswith('adm'):
@@ -206,6 +213,9 @@ def apply_op(kind, m, mach, op, others, viol, hist_label):
         elif op == 'reg2':
             m.set_dosing_regimen(protocol(REG2_EVENTS))
             mach.reg = REG2_EVENTS
+        elif op == 'reg0':
+            m.set_dosing_regimen(**REG0)
+            mach.reg = REG0_EVENTS
         elif op in ('out1', 'out2', 'out3'):
             # (the list stays the caller's: what is done to it afterwards is no
             # configuration call)
@@ -311,7 +321,7 @@ def apply_op(kind, m, mach, op, others, viol, hist_label):
                 return c
             others.append((c, obs_key(c_obs), 'copy'))
     except ValueError as e:
-        if op in ('reg1', 'reg2') and mach.adm is None:
+        if op in ('reg1', 'reg2', 'reg0') and mach.adm is None:
             after = obs_key(observe(m))
             if obs_diff(after, before):
                 viol.append({'sub': 'rejected_changed', 'message': 'rejected '
@@ -323,7 +333,7 @@ def apply_op(kind, m, mach, op, others, viol, hist_label):
             return m           # renaming to an existing name is refused: no change
         raise
     else:
-        if op in ('reg1', 'reg2') and before is not None:
+        if op in ('reg1', 'reg2', 'reg0') and before is not None:
             viol.append({'sub': 'reg_accepted', 'message': 'set_dosing_regimen '
                          'accepted without a route of administration',
                          'expected': 'ValueError', 'observed': 'accepted'})
@@ -331,7 +341,7 @@ def apply_op(kind, m, mach, op, others, viol, hist_label):
 
 
 def to_myokit_outputs(kind, outs):
-    K = KINDS[kind]
+    K = KINDS[kind.split(':')[-1]]
     inv = {K['renO'][1]: K['renO'][0]}
     return [inv.get(o, o) for o in outs]
 
@@ -452,7 +462,8 @@ def w_history(case):
 
 # ----------------------------------------------- reduced mechanistic model histories
 
-RED_OPS = ['fix0', 'fixlast', 'refix', 'rel0', 'relall', 'reg1', 'reg2', 'out1',
+RED_OPS = ['fix0', 'fixlast', 'refix', 'rel0', 'relall', 'reg1', 'reg2', 'reg0',
+           'out1',
            'out2', 'sensOn', 'sensOff', 'sim', 'copyC', 'copyO', 'renP']
 
 
@@ -489,14 +500,31 @@ def red_observe(rm, fixed_pos, n_full):
     return obs
 
 
-def w_red_history(case):
-    kind = case[0]
-    history = case[1:]
+def red_base(kind):
+    """The model under the parameter-fixing wrapper: a PKPD model with an indirect
+    route, or ('plain:<topology>') the same SBML file loaded as a plain SBMLModel,
+    which has no dosing at all."""
+    if kind.startswith('plain:'):
+        desc = sbmlgen.descriptor(kind.split(':')[1], [1, 0], [0, 1], None)
+        tmp = tempfile.mkdtemp(prefix='vc11_')
+        try:
+            return chi.SBMLModel(sbmlgen.write(desc, tmp))
+        finally:
+            shutil.rmtree(tmp, ignore_errors=True)
     K = KINDS[kind]
-    viol = []
     base = fresh(kind)
     base.set_administration(K['comps'][0], amount_var=K['amount'][K['comps'][0]],
                             direct=False)
+    return base
+
+
+def w_red_history(case):
+    kind = case[0]
+    history = case[1:]
+    plain = kind.startswith('plain:')
+    K = KINDS[kind.split(':')[-1]]
+    viol = []
+    base = red_base(kind)
     n_full = base.n_parameters()
     rm = chi.ReducedMechanisticModel(base)
     fixed = {}            # position in the full parameter list -> value
@@ -534,6 +562,11 @@ def w_red_history(case):
             full_names = rm.mechanistic_model().parameters()
             rm.fix_parameters({n_: None for n_ in full_names})
             fixed = {}
+        elif op in ('reg1', 'reg2', 'reg0') and plain:
+            continue          # (a plain SBML model cannot be dosed)
+        elif op == 'reg0':
+            rm.set_dosing_regimen(**REG0)
+            mach['reg'] = REG0_EVENTS
         elif op == 'reg1':
             rm.set_dosing_regimen(**REG1)
             mach['reg'] = REG1_EVENTS
@@ -550,10 +583,11 @@ def w_red_history(case):
         elif op == 'sensOn':
             if not free:
                 continue
-            rm.enable_sensitivities(True)
+            # (the flag as Python bool, numpy bool or integer, by position)
+            rm.enable_sensitivities([True, np.bool_(True), 1][i % 3])
             mach['sens'] = True
         elif op == 'sensOff':
-            rm.enable_sensitivities(False)
+            rm.enable_sensitivities([False, np.bool_(False), 0][i % 3])
             mach['sens'] = False
         elif op == 'sim':
             red_probe(rm, fixed, n_full)
@@ -619,9 +653,7 @@ def w_red_history(case):
                      'expected': 'simulation', 'observed': obs.get('probe_error'),
                      'behaviour': 'red_probe_' + obs['probe']})
     elif free:
-        f = fresh(kind)
-        f.set_administration(K['comps'][0], amount_var=K['amount'][K['comps'][0]],
-                             direct=False)
+        f = red_base(kind)
         if obs['reg'] is not None:
             f.set_dosing_regimen(protocol(obs['reg']))
         f.set_outputs(rep['outputs'])
@@ -711,7 +743,8 @@ def make_red_search(kind, depth, tail=1):
 
 
 def _ops(kind):
-    ops = ['admD', 'admI', 'badAdm', 'reg1', 'reg2', 'out1', 'out2', 'out3', 'outD',
+    ops = ['admD', 'admI', 'badAdm', 'reg1', 'reg2', 'reg0', 'out1', 'out2', 'out3',
+           'outD',
            'renP',
            'renChain', 'renO', 'sensOn', 'sensSub', 'sensOff', 'sim', 'copyC',
            'copyO']
@@ -739,6 +772,7 @@ for _k in KINDS:
     WORKERS['histories_' + _k] = w_history
     WORKERS['reduced_' + _k] = w_red_history
     WORKERS['all_histories_' + _k] = w_history
+WORKERS['reduced_plain:chain2'] = w_red_history
 
 
 LIB_MODELS = ['one_compartment_pk_model', 'erlotinib_tumour_growth_inhibition_model',
@@ -818,12 +852,14 @@ def build(tier, seed):
     seeds = [[], ['admD', 'reg1'], ['admI', 'reg2'], ['admD', 'sensOn']]
     if tier == 'quick':
         searches = [make_search('lib1', 3, seeds), make_red_search('lib1', 3),
+                    make_red_search('plain:chain2', 3),
                     make_exhaustive('lib1', 3)]
     else:
         searches = [make_search('lib1', 10, seeds, 2),
                     make_search('chain2', 10, seeds),
                     make_search('lib2', 10, seeds[:2]),
                     make_red_search('lib1', 5, 2), make_red_search('chain2', 4),
+                    make_red_search('plain:chain2', 4),
                     make_exhaustive('lib1', 4), make_exhaustive('chain2', 3)]
     lib_cases = []
     for model in LIB_MODELS:
@@ -871,3 +907,7 @@ META = {
                   'Which renames survive an administration change is not specified: '
                   'whatever is reported is taken as the net configuration.',
 }
+META['level_text'] += (
+    ' Also: a plain SBMLModel under the parameter-fixing wrapper (flags as bool / n'
+    'umpy bool / integer), outputs in the dose compartment and refused calls, zero-'
+    'amount regimens, two models handed out by one ModelLibrary object.')
